@@ -306,6 +306,15 @@ func (r *NodeManagement) processNotifyDetailedDiscoveryData(message *api.Message
 
 				// remove all feature caches for this entity
 				r.Device().CleanRemoteEntityCaches(removedEntity.Address())
+
+				// remove the write approvals pending for writes of this entity's features
+				for _, le := range r.Device().Entities() {
+					for _, lf := range le.Features() {
+						if fl, ok := lf.(*FeatureLocal); ok {
+							fl.cleanWriteApprovalCachesForEntity(remoteDevice.Ski(), removedEntity)
+						}
+					}
+				}
 			}
 		}
 	}
